@@ -120,8 +120,18 @@ for kv in _FAMILIES:
 #     TYPE_BTREE or TYPE_BUCKET, is_mapping
 
 
+def _lookup_by_type(table, obj):
+    # Instances of subclasses (the documented way to customize
+    # ``max_leaf_size`` and ``max_internal_size``) are handled like
+    # instances of the class they derive from.
+    for klass in type(obj).__mro__:
+        if klass in table:
+            return table[klass]
+    raise KeyError(type(obj))
+
+
 def classify(obj):
-    return _type2kind[type(obj)]
+    return _lookup_by_type(_type2kind, obj)
 
 
 BTREE_EMPTY, BTREE_ONE, BTREE_NORMAL = range(3)
@@ -338,7 +348,7 @@ class Walker:
                     # the bucket state is embedded directly in the BTree
                     # state.  Synthesize a bucket.
                     assert kids is None  # "keys" is really the bucket state
-                    bucket = _btree2bucket[type(obj)]()
+                    bucket = _lookup_by_type(_btree2bucket, obj)()
                     bucket.__setstate__(keys)
                     stack.append((bucket,
                                   path + [0],
